@@ -3,7 +3,7 @@ import json, os, glob
 from harness import common
 from harness.common import coq_list, coq_Z
 
-REQ = ["Verif.lib.PyLite", "Verif.gen.ReachGen", "Verif.gen.ReachDispGen", "Verif.lib.Reach", "Verif.lib.ReachDeep"]
+REQ = ["Verif.lib.PyLite", "Verif.gen.ReachGen", "Verif.gen.ReachDispGen", "Verif.lib.Reach", "Verif.lib.ReachDeep", "Verif.lib.ReachPipe"]
 
 DATA_TYPES = ["list", "tuple", "dict", "set", "immutable-set", "none"]
 BAD_TYPES = ["instance", "class", "module", "function", "method", "call", "answer", "vocab", "x", "remote_hi", "List"]
@@ -71,6 +71,15 @@ def cxev(ev):
     return "(XE %s)" % cev(ev)
 
 
+def chev(ev):
+    """an event of the correspondence machine: a burst (several calls parsed in one dataReceived, then delivered) runs the
+    two-step machine of lib/ReachPipe.v built from the translated code (pstep_T); everything else runs xstep"""
+    if ev[0] == "Burst":
+        return "(HBurst C%s %s)" % (ev[1], coq_list(ev[2], lambda m: "(%s, %s, %s, %s)" % (coq_Z(m[0]), coq_Z(m[1]), cmname(m[2]),
+                                                                                          coq_list(m[3], carg))))
+    return "(HX %s)" % cxev(ev)
+
+
 def cev(ev):
     k = ev[0]
     cid = lambda c: "C" + c
@@ -131,10 +140,38 @@ Definition obs (x : xstate) (y : xresult) :=
   (enc_out (r_out r), r_inst r, map (fun x => (cidz (fst (fst x)), snd (fst x), snd x)) (r_sent r),
    enc_conn (s_a st), enc_conn (s_b st), Z.of_nat (List.length (s_n2r st)),
    (map enc_val (xr_argv y), xs_yours_a x, xs_yours_b x, map fst (xr_dial y))).
-Fixpoint trace (w : world) (x : xstate) (h : list xevent) :=
-  match h with [] => [] | e :: r => let '(x1, y) := xstep w x e in obs x1 y :: trace w x1 r end.
-Definition final (w : world) (ag : bool) (h : list xevent) :=
-  let st := xs_core (fst (xrun w (xinit ag) h)) in
+(* bursts: several calls PARSED in one dataReceived, then delivery turns (lib/ReachPipe.v, the machine built from the translated
+   code); one row per parse and per delivery turn.  Every event starts with empty queues (the harness turns the reactor until
+   nothing is left after each event). *)
+Definition enc_pout (o : pout) : Z * Z * list N :=
+  match o with Queued => (8, 0, []) | Idle => (9, 0, []) | Out o' => enc_out o' end.
+Inductive hev := HX (e : xevent) | HBurst (c : cid) (msgs : list (Z * Z * mname * list arg)).
+Definition sync (x : xstate) (st : state) (c : cid) : xstate :=
+  let x' := {| xs_core := st; xs_yours_a := xs_yours_a x; xs_yours_b := xs_yours_b x; xs_accept_gifts := xs_accept_gifts x |} in
+  if c_alive (get_conn st c) then x' else set_yours x' c [].
+Definition pobs (x : xstate) (r : presult) :=
+  let st := xs_core x in
+  (enc_pout (pr_out r), pr_inst r, map (fun x => (cidz (fst (fst x)), snd (fst x), snd x)) (pr_sent r),
+   enc_conn (s_a st), enc_conn (s_b st), Z.of_nat (List.length (s_n2r st)),
+   (@nil (Z * Z), xs_yours_a x, xs_yours_b x, @nil Z)).
+Fixpoint prows (w : world) (x : xstate) (c : cid) (ps : pstate) (pes : list pevent) {struct pes} :=
+  match pes with
+  | [] => (x, [])
+  | pe :: r => let '(ps1, y) := pstep_T w ps pe in
+               let x1 := sync x (p_st ps1) c in
+               let '(x2, rows) := prows w x1 c ps1 r in (x2, pobs x1 y :: rows)
+  end.
+Definition hstep (w : world) (x : xstate) (e : hev) :=
+  match e with
+  | HX e0 => let '(x1, y) := xstep w x e0 in (x1, [obs x1 y])
+  | HBurst c msgs => prows w x c {| p_st := xs_core x; p_qa := []; p_qb := [] |} (burst c msgs)
+  end.
+Fixpoint trace (w : world) (x : xstate) (h : list hev) :=
+  match h with [] => [] | e :: r => let '(x1, rows) := hstep w x e in rows ++ trace w x1 r end.
+Fixpoint hrun (w : world) (x : xstate) (h : list hev) : xstate :=
+  match h with [] => x | e :: r => hrun w (fst (hstep w x e)) r end.
+Definition final (w : world) (ag : bool) (h : list hev) :=
+  let st := xs_core (hrun w (xinit ag) h) in
   (map (fun x => (sb (fst x), snd x)) (s_n2r st), map (fun x => (fst x, sb (snd x))) (s_r2n st),
    map (fun x => sb (fst x)) (s_copy st), map (fun x => (fst x, map sb (snd x))) (s_decl st)).
 """
@@ -142,8 +179,72 @@ Definition final (w : world) (ag : bool) (h : list xevent) :=
 
 # ------------------------------------------------------------------ history generation (on the fly, on the real code)
 class Gen:
-    def __init__(self, rng):
+    def __init__(self, rng, bursts=False):
         self.r = rng
+        self.bursts = bursts        # burst mode: some events are several calls in ONE dataReceived (histories of their own, so the
+                                    # random stream of the one-call-per-segment histories is what it always was)
+
+    def burst(self, sysm, snap, seen, req, copyreg, touched):
+        """["Burst", c, [[req, clid, method bytes, args(, kw)], ...]]: 2-4 calls the peer sends back to back.  The peer's
+        knowledge is the snapshot BEFORE the burst: release-then-call, call-then-release, lookup-then-call-the-id-it-will-get,
+        a protocol error in the middle, and random mixtures."""
+        c = self.pick(["A", "B"])
+        live = sorted(snap[c])
+        msgs = []
+
+        def add(clid, m, args, kw=False):
+            req[c] += 1
+            msgs.append([req[c], clid, B(m) if isinstance(m, str) else list(m), args] + ([True] if kw else []))
+
+        def method_for(k):
+            wid = snap[c][k][0]
+            wd = impl_world().get(wid)
+            good = [a[7:] for a in wd["attrs"] if a.startswith("remote_")] if wd else []
+            return self.pick(good) if good and self.r.random() < 0.8 else self.pick(METHODS)
+
+        q = self.r.random()
+        if q < 0.35 and live:
+            k = self.pick(live)
+            held = snap[c][k][1]
+            add(0, "decref", [["I", k], ["I", self.pick([held, held, 1, held + 1])]], self.r.random() < 0.3)
+            add(k, method_for(k), self.args(c, snap, seen, copyreg))
+            if self.r.random() < 0.5:
+                add(k, method_for(k), [["Y", k]] if k > 0 else [])
+        elif q < 0.50:
+            names = sorted(snap["names"]) + sorted(sysm_handler_names()) + ["nosuch"]
+            add(0, "getReferenceByName", [["B", B(self.pick(names))]], self.r.random() < 0.3)
+            nxt = snap["next" + c]
+            add(self.pick([nxt, nxt, -nxt] + live[:1]), self.pick(["hi", "x", "hidden"]), [])
+            if self.r.random() < 0.5:
+                add(0, "decref", [["I", nxt], ["I", 1]])
+        elif q < 0.62 and live:
+            k = self.pick(live)
+            add(k, method_for(k), [])
+            add(0, "decref", [["I", k], ["I", snap[c][k][1]]])
+            add(k, method_for(k), [])
+        elif q < 0.70 and live:
+            k = self.pick(live)
+            add(k, method_for(k), [])
+            add(k, method_for(k), [["Y", self.pick([-1, -3, -(2 ** 40)])]])
+            add(k, method_for(k), [])
+            if self.r.random() < 0.5:
+                add(0, "decref", [["I", k], ["I", 1]])
+        else:
+            for _ in range(self.pick([2, 2, 3, 4])):
+                for _try in range(30):
+                    ev = self.event(sysm, snap, seen, req, copyreg, 99, touched, force_c=c, plain=True)
+                    if ev[0] == "Msg":
+                        break
+                else:
+                    continue
+                if ev[2] == 0:
+                    req[c] += 1
+                    ev[2] = req[c]
+                msgs.append([ev[2], ev[3], ev[4], [a for a in ev[5] if a[0] not in ("M", "T")]] + ([True] if len(ev) > 6 and ev[6] else []))
+        if len(msgs) < 2:
+            add(0, "decgift", [["I", 1], ["I", 1]])
+            add(self.pick(live) if live else 1, "hi", [])
+        return ["Burst", c, msgs]
 
     def pick(self, xs):
         return xs[self.r.randrange(len(xs))]
@@ -193,9 +294,13 @@ class Gen:
                 out.append(["O", self.pick(DATA_TYPES * 2 + BAD_TYPES)])
         return out
 
-    def event(self, sysm, snap, seen, req, copyreg, i=99, touched=()):
+    def event(self, sysm, snap, seen, req, copyreg, i=99, touched=(), force_c=None, plain=False):
+        if self.bursts and not plain and i >= 2 and self.r.random() < 0.30:
+            return self.burst(sysm, snap, seen, req, copyreg, touched)
         r = self.r.random()
         c = self.pick(["A", "B"])
+        if force_c:
+            c = force_c
         if i < 6 and r > 0.34:
             r = self.pick([0.1, 0.1, 0.1, 0.22, 0.3, r])      # histories start with grants / registrations
         if r < 0.20:
@@ -320,8 +425,10 @@ class Oracle:
         self.prev = snap
         if o["exc"]:
             fail("exception-escaped", "an exception escaped the transport-facing call", o["exc"][-800:])
-        c = ev[1] if kind in ("Grant", "Msg", "Top", "Drop") else None
+        c = ev[1] if kind in ("Grant", "Msg", "Top", "Drop", "Burst") else None
         ent = [e for e in o["entered"] if not (e[0] == "broker" and e[2] == "doRemoteCall")]
+        if kind == "Burst":
+            return self.check_burst(ev, o, ent, prev, fail)
         # what the server wrote: references handed to the peer
         for cc in ("A", "B"):
             for clid, url in o["sent"][cc]:
@@ -523,6 +630,113 @@ class Oracle:
             fail("plain-call-changed-tables", "a call to an application object changed the tables: before %r after %r" % (prev, snap))
 
 
+def _check_burst(self, ev, o, ent, prev, fail):
+    """several calls sent back to back on c.  The peer-side bookkeeping is SEQUENTIAL: a release counts from the moment the peer
+    sent it, a reference from the moment the server wrote it (after the burst).  An entry through an id the peer still held at the
+    START of the burst but had released by an EARLIER call of the same burst is the pipelining behaviour
+    (released-id-entered-when-pipelined); an entry through an id it held at neither moment is an unjustified entry."""
+    impl = self.impl
+    c = ev[1]
+    snap = o["snap"]
+    msgs = ev[2]
+    oc = "B" if c == "A" else "A"
+    if o["out"] == "Dead":
+        if ent or o["inst"] or any(o["sent"].values()):
+            fail("dead-connection-processed-burst", "a burst on the dropped connection %s entered %r / instantiated %r" % (c, ent, o["inst"]))
+        return
+    if prev is not None and (prev[oc] != snap[oc] or prev["yours" + oc] != snap["yours" + oc] or prev["alive" + oc] != snap["alive" + oc]):
+        fail("burst-changed-other-connection", "a burst on %s changed connection %s: %r -> %r" % (c, oc, prev[oc], snap[oc]))
+    start = {k: list(v) for k, v in self.held[c].items()}
+    per = o["per"] or []
+    pe_ = o.get("per_entry") or []
+    by_msg = {i: e for i, e in enumerate(pe_[:len(msgs)]) if e is not None}
+    if len(pe_) > len(msgs) or len(by_msg) != len(ent) or any(p_ == "Enter" and i not in by_msg for i, p_ in enumerate(per)):
+        fail("burst-entries-unaccounted", "a burst of %d calls on %s was answered %r but entered %r" % (len(msgs), c, per, ent))
+    lookups = []
+    for i, m_ in enumerate(msgs):
+        req, clid, mb, args = m_[0], m_[1], bytes(m_[2]), m_[3]
+        try:
+            m = mb.decode("utf-8")
+        except UnicodeDecodeError:
+            m = None
+        e = by_msg.get(i)
+        if e is not None:
+            why = None
+            pipelined = False
+            if e[0] == "broker":
+                if clid != 0 or e[1] != c or m is None or e[2] != impl.PREFIX + m or \
+                        e[2] not in ("remote_getReferenceByName", "remote_decref", "remote_decgift"):
+                    why = "broker method %r of %s entered by call %r to clid %r on %s" % (e[2], e[1], mb, clid, c)
+            else:
+                want_pos = e[0] == "obj"
+                def ok(h):
+                    return bool(h) and h[1] > 0 and h[0] == e[1]
+                h, h0 = self.held[c].get(clid), start.get(clid)
+                if (clid > 0) != want_pos or clid == 0:
+                    why = "%s %r entered through clid %r" % (e[0], e[1], clid)
+                elif not ok(h):
+                    if ok(h0):
+                        pipelined = True
+                    else:
+                        why = "%s %r entered through clid %r which this peer does not hold on %s (held at the start of the burst: %r, now: %r)" \
+                              % (e[0], e[1], clid, c, start, self.held[c])
+                if want_pos and not why:
+                    if m is None or e[2] != impl.PREFIX + m:
+                        why = "attribute %r entered for method name %r" % (e[2], mb)
+                    else:
+                        names_, level_ = o["iface_now"].get(e[1], (None, None)) if "iface_now" in o else (None, None)
+                        if names_ == "several" or (names_ is not None and m not in names_):
+                            why = "method %r is not in the RemoteInterface %r the instance exposes" % (m, names_)
+            if why:
+                fail("unjustified-entry", "in a burst: " + why)
+            elif pipelined:
+                fail("released-id-entered-when-pipelined",
+                     "the peer released id %r on %s (decref, earlier in the same segment) and then called it; both were parsed before "
+                     "either was delivered: %s %r was entered through an id that was no longer in the table (held at the start of the "
+                     "burst: %r)" % (clid, c, e[2] or "the callable", e[1], start.get(clid)))
+            if e[0] == "broker" and e[2] == "remote_decref" and len(args) == 2:
+                k, n = args[0][1], args[1][1]
+                h = self.held[c].get(k)
+                if h and n <= h[1]:
+                    h[1] -= n
+                    if h[1] == 0:
+                        del self.held[c][k]
+            if e[0] == "broker" and e[2] == "remote_getReferenceByName" and len(args) == 1:
+                lookups.append(bytes(args[0][1]).decode("utf-8", "replace"))
+    # classes: only registered ones, only as often as the calls name them
+    allowed = [self.copyreg[a[1]] for m_ in msgs for a in m_[3] if a[0] == "C" and a[1] in self.copyreg]
+    for cls in o["inst"]:
+        if cls in allowed:
+            allowed.remove(cls)
+        else:
+            fail("unregistered-class-instantiated", "in a burst: class %r instantiated; registry %r" % (cls, self.copyreg))
+    # references the server wrote: only on c, only for names the burst looked up and the application published
+    for cc in ("A", "B"):
+        for clid, url in o["sent"][cc]:
+            if clid == "unparsable":
+                continue
+            pub = [self.known.get(nm, self.served.get(nm)) for nm in lookups]
+            pub = [w_ for w_ in pub if w_ is not None]
+            if clid not in snap[cc]:
+                # granted by a lookup and released again by a later call of the same burst (or the connection went away)
+                released = any(m_[1] == 0 and bytes(m_[2]) == b"decref" and m_[3][:1] == [["I", clid]] for m_ in msgs)
+                if snap["alive" + cc] and not (released and pub and cc == c):
+                    fail("sent-clid-not-in-table", "a my-reference %r was sent on %s but is not in that connection's table" % (clid, cc))
+                continue
+            wid = snap[cc][clid][0]
+            if cc != c or wid not in pub:
+                fail("name-lookup-unpublished", "a burst on %s with lookups %r made the server send object %r (clid %r) on %s"
+                     % (c, lookups, wid, clid, cc))
+            self.held[cc].setdefault(clid, [wid, 0])[1] += 1
+    if not snap["alive" + c]:
+        self.held[c] = {}
+        if not any(a[0] == "Y" and a[1] < 0 for m_ in msgs for a in m_[3]):
+            fail("connection-dropped-without-protocol-error", "a burst of well-formed calls %r cost the peer its connection %s" % (msgs, c))
+
+
+Oracle.check_burst = _check_burst
+
+
 def impl_accepts_gifts(o):
     return o.get("accept_gifts", True)
 
@@ -634,6 +848,52 @@ def expected_obs(o, ev):
                 argv=argv, yoursA=s["yoursA"], yoursB=s["yoursB"], dials=sorted(o.get("dials", [])))
 
 
+def expected_burst(o, ev):
+    """observation of a burst -> the shape model_burst produces"""
+    ent = []
+    for e in o["entered"]:
+        if e[0] == "broker":
+            if e[2] != "doRemoteCall":
+                ent.append((1, 0, B(e[2])))
+        elif e[0] == "obj":
+            ent.append((2, e[1], B(e[2])))
+        else:
+            ent.append((3, e[1], []))
+    sent = []
+    for ci, c in enumerate(("A", "B")):
+        for clid, url in o["sent"][c]:
+            sent.append((ci, clid))       # which object: the tables compared below say it (the id may be released again by now)
+    s = o["snap"]
+    return dict(per=list(o["per"] or []), entered=ent, inst=sorted(o["inst"]), sent=sorted(sent),
+                A=(s["aliveA"], s["A"], s["nextA"]), B=(s["aliveB"], s["B"], s["nextB"]), nn=len(s["names"]),
+                yoursA=s["yoursA"], yoursB=s["yoursB"])
+
+
+def model_burst(rows, k):
+    """rows of the two-step machine for one burst of k calls (k parses, then k delivery turns) -> per-call verdicts (a resolved
+    call whose connection is dropped before its turn is lost: no answer), things entered in order, final tables"""
+    obs_ = [model_obs(v) for v in rows]
+    parses, delivers = obs_[:k], obs_[k:]
+    entered = [d["out"] for d in delivers if d["out"][0] in (1, 2, 3)]
+    turns = [d["out"][0] for d in delivers if d["out"][0] != 9]       # what each delivery turn that found something did
+    per = []
+    nq = 0
+    for p_ in parses:
+        code = p_["out"][0]
+        if code == 8:
+            # resolved and queued: its turn enters it, or fails it (the attribute is looked up at delivery), or never comes
+            per.append("None" if nq >= len(turns) else "Enter" if turns[nq] in (1, 2, 3) else "Reject")
+            nq += 1
+        elif code == 4:
+            per.append("Reject")
+        else:
+            per.append("None")
+    last = obs_[-1]
+    return dict(per=per, entered=[(e[0], e[1], list(e[2])) for e in entered], inst=sorted(x for p_ in parses for x in p_["inst"]),
+                sent=sorted(tuple(x[:2]) for d in obs_ for x in d["sent"]), A=last["A"], B=last["B"], nn=last["nn"],
+                yoursA=last["yoursA"], yoursB=last["yoursB"])
+
+
 def model_obs(v, exp=None):
     o1, o2, o3, inst, sent, ca, cb, nn, ext = v     # Coq prints left-nested pairs flat
     argv, ya, yb, dial = ext
@@ -654,7 +914,7 @@ def correspond(ctx, impl, hists, tag):
     hists = [([e for e in evs if e[0] != "Config"], [o for o in obs if o is not None], final) for evs, obs, final in hists]
     for i, (evs, obs, final) in enumerate(hists):
         ag = "true" if final.get("accept_gifts", True) else "false"
-        body.append("Definition h%d : list xevent := %s." % (i, coq_list(evs, cxev)))
+        body.append("Definition h%d : list hev := %s." % (i, coq_list(evs, chev)))
         body.append("Eval vm_compute in trace W (xinit %s) h%d." % (ag, i))
         body.append("Eval vm_compute in final W %s h%d." % (ag, i))
     try:
@@ -667,12 +927,25 @@ def correspond(ctx, impl, hists, tag):
         tr, fin = vals[2 * i], vals[2 * i + 1]
         ctx.traces += 1
         bad = None
-        if len(tr) != len(evs):
-            bad = ("length", len(tr), len(evs))
+        nrows = sum(2 * len(ev[2]) if ev[0] == "Burst" else 1 for ev in evs)
+        if len(tr) != nrows:
+            bad = ("length", len(tr), nrows)
         else:
-            for j, (ev, o, v) in enumerate(zip(evs, obs, tr)):
-                exp = expected_obs(o, ev)
-                got = model_obs(v, exp)
+            pos = 0
+            for j, (ev, o) in enumerate(zip(evs, obs)):
+                if ev[0] == "Burst":
+                    rows = tr[pos:pos + 2 * len(ev[2])]
+                    pos += len(rows)
+                    if o["out"] == "Dead":
+                        exp, got = expected_burst(o, ev), model_burst(rows, len(ev[2]))
+                        exp["per"] = got["per"] = None      # nothing was fed to a connection that was already gone
+                    else:
+                        exp, got = expected_burst(o, ev), model_burst(rows, len(ev[2]))
+                else:
+                    v = tr[pos]
+                    pos += 1
+                    exp = expected_obs(o, ev)
+                    got = model_obs(v, exp)
                 if exp != got:
                     diff = {k: (got[k], exp[k]) for k in exp if exp[k] != got[k]}
                     bad = dict(step=j, event=ev, model_vs_impl=diff)
@@ -844,6 +1117,72 @@ def method_walk_family():
     return [h]
 
 
+PIPELINED_SIG = "oracle/released-id-entered-when-pipelined"
+
+
+def burst_family():
+    """fixed witnesses for calls that arrive in ONE dataReceived (all parsed before any is delivered)"""
+    B_ = lambda t: list(t.encode())
+    dec = lambda rq, k, n: [rq, 0, B_("decref"), [["I", k], ["I", n]]]
+    call = lambda rq, k, m="hi", args=None: [rq, k, B_(m), args or []]
+    look = lambda rq, n: [rq, 0, B_("getReferenceByName"), [["B", B_(n)]]]
+    hs = []
+    # release then call (the witness of C06_held_at_delivery_refuted); then the same one call per segment
+    hs.append([["Grant", "A", 1, ""], ["Burst", "A", [dec(1, 1, 1), call(2, 1)]], ["Msg", "A", 3, 1, B_("hi"), []],
+               ["Grant", "A", 2, ""], ["Msg", "A", 4, 0, B_("decref"), [["I", 2], ["I", 1]]], ["Msg", "A", 5, 2, B_("hi"), []]])
+    # lookup then call to the id the lookup is about to grant: refused; afterwards it is held
+    hs.append([["Register", "pub", 1, ""], ["Burst", "A", [look(1, "pub"), call(2, 1), call(3, -1)]], ["Msg", "A", 4, 1, B_("hi"), []],
+               ["Burst", "B", [look(1, "pub"), look(2, "pub"), look(3, "nosuch"), dec(4, 1, 1)]], ["Msg", "B", 5, 1, B_("hi"), []]])
+    # call / release / call on an object and on a bound method; the other connection holds the same objects
+    hs.append([["Grant", "A", 1, ""], ["Grant", "A", 7, ""], ["Grant", "B", 1, ""], ["Grant", "B", 7, ""],
+               ["Burst", "A", [call(1, 1), dec(2, 1, 1), call(3, 1), call(4, -2, "x"), dec(5, -2, 1), call(6, -2, "x")]],
+               ["Burst", "B", [call(1, 1), call(2, -2)]], ["Burst", "A", [call(7, 1), call(8, -2)]]])
+    # a protocol error in the middle: the resolved first call is abandoned with the connection, the third is never parsed
+    hs.append([["Grant", "A", 1, ""], ["Grant", "B", 3, ""],
+               ["Burst", "A", [call(1, 1), call(2, 1, "hi", [["Y", -3]]), call(3, 1), dec(4, 1, 1)]],
+               ["Burst", "A", [call(5, 1), call(6, 1)]], ["Burst", "B", [call(1, 1), call(2, 1, "x")]]])
+    # arguments are unsliced at parse time: classes, your-references resolved against the table as it is then
+    hs.append([["RegisterCopy", "my.rc1", 1], ["Grant", "A", 1, ""], ["Grant", "A", 2, ""],
+               ["Burst", "A", [call(1, 1, "hi", [["C", "my.rc1"]]), call(2, 9, "hi", [["C", "my.rc1"]]), call(3, 1, "nosuch", [["C", "my.rc1"]]),
+                               call(4, 1, "hi", [["O", "instance"]]), dec(5, 2, 1), call(6, 1, "hi", [["Y", 2]]), call(7, 1, "hi", [["Y", 77]])]]])
+    # a reference count of 2: the first release leaves the id held, the second does not
+    hs.append([["Grant", "A", 1, ""], ["Grant", "A", 1, ""],
+               ["Burst", "A", [dec(1, 1, 1), call(2, 1), dec(3, 1, 1), call(4, 1), dec(5, 1, 1), call(6, 1)]]])
+    # broker methods only
+    hs.append([["Grant", "A", 5, ""], ["Serve", "dyn-3", 3],
+               ["Burst", "A", [look(1, "nosuch"), dec(2, 5, 1), [3, 0, B_("decgift"), [["I", 1], ["I", 1]]], call(4, 0, "shutdown"),
+                               look(5, "dyn-3"), look(6, "dyn-3"), dec(7, 1, 2), call(8, 1)]]])
+    return hs
+
+
+def pipelined_release_probe(ctx, impl):
+    """Replays the witness of C06_held_at_delivery_refuted on the real code: the peer is granted an object, then sends decref and a
+    call to it in ONE segment.  Both are parsed (the call is resolved to the object) before either is delivered, so the method is
+    entered on an object whose id is no longer in the connection's table.  A candidate finding against clause (b) ("not yet
+    released"); a violation only once the lead has listed the signature in known_findings.json."""
+    B_ = lambda t: list(t.encode())
+    hist = [["Grant", "A", 1, ""], ["Burst", "A", [[1, 0, B_("decref"), [["I", 1], ["I", 1]]], [2, 1, B_("hi"), []]]]]
+    sysm = impl.System()
+    try:
+        for ev in hist:
+            ev = list(ev)
+            if ev[0] == "Grant":
+                ev[3] = sysm.next_swiss()
+            o = sysm.do(ev)
+    finally:
+        sysm.close()
+    got = dict(entered=o["entered"], table_after=o["snap"]["A"], answers=o["per"])
+    ctx.extra["pipelined_release_witness"] = got
+    entered_released = any(e[0] == "obj" and e[1] == 1 for e in o["entered"]) and 1 not in o["snap"]["A"]
+    if entered_released:
+        what = ("decref(1,1) and call(1,'hi') in one segment: remote_hi was entered on the object although the peer had released "
+                "id 1 (table afterwards %r); one call per segment refuses the second call; history %r" % (o["snap"]["A"], hist))
+        if ("C06", PIPELINED_SIG) in common.load_known():
+            ctx.fail(PIPELINED_SIG, what, replay=dict(history=hist, observed=got))
+        else:
+            ctx.note("candidate finding %s (fixed witness; not listed in known_findings.json, so only noted): %s" % (PIPELINED_SIG, what[:400]))
+
+
 REFUSED_EFFECTS_SIG = "oracle/refused-request-left-proxy-or-dial"
 
 
@@ -939,7 +1278,9 @@ def _run(ctx):
                 "objects (plain, interface-bearing, bound methods), registrations, copyable registrations, and hand-built inbound "
                 "token sequences (call with live / other-connection / stale / 0 / negated / huge clids, 21 method names incl. dunder, "
                 "dotted, empty, non-ASCII, double prefix, undecodable; your-reference / copyable / other OPEN types as arguments; "
-                "getReferenceByName / decref / decgift on clid 0; other top-level sequences).  Distinct = distinct event list; "
+                "getReferenceByName / decref / decgift on clid 0; other top-level sequences); 7 fixed and 36 (thorough 700) generated histories "
+                "in which 2-8 calls arrive in ONE dataReceived (all parsed before any is delivered: release-then-call, call-then-release, "
+                "lookup-then-call, a protocol error in the middle).  Distinct = distinct event list; "
                 "non-trivial = at least one message entered code, at least one was refused, and both connections were used")
     ctx.assumptions = [
         "the two Brokers are attached to the Tub directly (Broker(...).setTub(tub), sink transport): negotiation and TLS are not part of this property",
@@ -957,6 +1298,10 @@ def _run(ctx):
         "translated for ONE registered handler, which is what the fixture registers); hand-modelled and tied by the correspondence only: the clid-0 path "
         "(RIBroker schema), the mapping exception -> Reject / connection dropped, token-type checks (checkToken), truthiness of "
         "application objects (assumed true), RemoteInterface schemas (unconstrained in the fixture; C02)",
+        "parse and delivery are two steps (lib/ReachPipe.v): bursts run the two-step machine built from the translated code; all other "
+        "events run the one-step machine, which is the two-step one for a call on an idle connection (C06_atomic_is_parse_then_deliver); "
+        "every harness event ends with the reactor idle, so every event starts with empty delivery queues; calls in a burst carry no "
+        "my-/their-reference arguments",
         "Tub.generateSwissnumber is replaced per Tub instance by a counter so that model and implementation can be compared; "
         "unguessability: translated facts NAMEBITS = 160 and 'the name is base32 of os.urandom(bits//8)' (C06_swissnum_bits), plus a "
         "peer-side prediction attack on the real generator (MT19937 state recovery from 126 observed names) that must fail",
@@ -965,15 +1310,20 @@ def _run(ctx):
     from harness import c06_impl as impl
     before = len(ctx.failures)
     hists = []
+    pipelined_seen = []
 
     def account(evs, obs, final, fails, origin):
-        outs = [o["out"] for o in obs if o is not None]
-        conns = set(e[1] for e in evs if e[0] in ("Msg", "Top"))
+        outs = [o["out"] for o in obs if o is not None] + [p_ for o in obs if o is not None for p_ in (o.get("per") or [])]
+        conns = set(e[1] for e in evs if e[0] in ("Msg", "Top", "Burst"))
         ctx.case(["hist", evs], nontrivial=("Enter" in outs and "Reject" in outs and len(conns) == 2))
         for e, o in zip(evs, obs):
             if o is None:
                 continue
             ctx.hist("event_kind", e[0])
+            if e[0] == "Burst":
+                ctx.hist("burst_size", len(e[2]))
+                for p_ in (o.get("per") or []):
+                    ctx.hist("burst_call_outcome", p_)
             if e[0] == "Msg":
                 for a in e[5]:
                     if a[0] in ("M", "T"):
@@ -990,6 +1340,16 @@ def _run(ctx):
         ctx.hist("history_length", len(evs))
         for sig, what, idx, extra in fails:
             small = evs[:idx + 1]
+            if sig == "released-id-entered-when-pipelined":
+                # candidate finding against clause (b) (C06_held_at_delivery_refuted): a violation only once the lead has listed it
+                pipelined_seen.append(origin)
+                if ("C06", PIPELINED_SIG) in common.load_known():
+                    if len(pipelined_seen) == 1:
+                        ctx.fail(PIPELINED_SIG, "%s; history: %r" % (what, small), replay=dict(history=small, origin=origin))
+                elif len(pipelined_seen) == 1:
+                    ctx.note("candidate finding %s (not listed in known_findings.json, so only noted): %s; history %r"
+                             % (PIPELINED_SIG, what[:300], small))
+                continue
             try:
                 small = shrink(ctx, impl, small, sig)
             except Exception:
@@ -1021,6 +1381,11 @@ def _run(ctx):
             evs, obs, final, fails = run_history(ctx, impl, events=h)
             account(evs, obs, final, fails, "%s-%d" % (nm, i))
             ctx.hist("origin", nm)
+    # 1d. fixed witnesses: several calls in ONE dataReceived
+    for i, h in enumerate(burst_family()):
+        evs, obs, final, fails = run_history(ctx, impl, events=h)
+        account(evs, obs, final, fails, "bursts-%d" % i)
+        ctx.hist("origin", "bursts")
     # 2. generated histories on the real code, with the direct oracle
     g = Gen(ctx.rng)
     nh = ctx.n(120, 2500)
@@ -1031,6 +1396,16 @@ def _run(ctx):
         ctx.hist("origin", "generated")
         if i < 2:
             ctx.sample(dict(history=evs[:8], outcomes=[o["out"] for o in obs[:8] if o is not None]))
+    # 2b. generated histories in which the peer pipelines calls (a random stream of their own)
+    import random as _random
+    gb = Gen(_random.Random(1000003 * ctx.seed + 17), bursts=True)
+    for i in range(ctx.n(36, 700)):
+        evs, obs, final, fails = run_history(ctx, impl, n=ctx.n(18, 30), gen=gb)
+        account(evs, obs, final, fails, "generated-bursts-%d" % i)
+        ctx.hist("origin", "generated-bursts")
+        if i < 1:
+            ctx.sample(dict(history=evs[:8], outcomes=[o["out"] for o in obs[:8] if o is not None]))
+    ctx.extra["pipelined_release_histories"] = len(pipelined_seen)
     # 3. correspondence with the Coq model
     model_ok = ok
     if not ok:
@@ -1041,6 +1416,7 @@ def _run(ctx):
             correspond(ctx, impl, hists[k:k + shard], "cases_%d" % (k // shard))
         correspond_decref(ctx)
     redeclare_probe(ctx, impl)
+    pipelined_release_probe(ctx, impl)
     refused_effects_probe(ctx, impl)
     unguessable_names(ctx, impl)
     if not ok and len(ctx.failures) == before:
